@@ -264,16 +264,19 @@ func c08ContentUndec(r c08Rec, ctx c08Ctx) string {
 			return "alert"
 		}
 	case 22:
+		// Only the FIRST fragment decides: FragmentBuffer.Push applies the leading well-formed fragments of a record
+		// before it rejects the record at a malformed one, so a record with a decodable first fragment is, for the
+		// connection, a decodable handshake fragment followed by junk (class clear: the same content sent alone is
+		// a parseable record) - not something the property asks to be dropped.
 		b := r.body
-		for len(b) > 0 {
-			if len(b) < 12 {
-				return "hs"
-			}
-			fl := int(b[9])<<16 | int(b[10])<<8 | int(b[11])
-			if 12+fl > len(b) {
-				return "hs"
-			}
-			b = b[12+fl:]
+		if len(b) == 0 {
+			return "hs"
+		}
+		if len(b) < 12 {
+			return "hs"
+		}
+		if fl := int(b[9])<<16 | int(b[10])<<8 | int(b[11]); 12+fl > len(b) {
+			return "hs"
 		}
 	case 23:
 	case 26:
@@ -850,6 +853,8 @@ func c08HsMsg(typ byte, mseq int, body []byte, declLen, off, flen int) []byte {
 	return append(h, body...)
 }
 
+const c08NPlain = 33 // entries of the list in c08MalformedPlain
+
 func c08MalformedPlain(rng *vRand, mseq int, v13 bool, idx int) c08Plain {
 	r := rng.bytes(1 + rng.intn(40))
 	list := []c08Plain{
@@ -888,6 +893,9 @@ func c08MalformedPlain(rng *vRand, mseq int, v13 bool, idx int) c08Plain {
 		{"cid-type", protocol.ContentTypeConnectionID, r},
 	}
 	_ = v13
+	if len(list) != c08NPlain {
+		panic("c08: c08NPlain out of date")
+	}
 	if idx >= 0 {
 		return list[idx%len(list)]
 	}
@@ -1153,6 +1161,29 @@ func (s *c08Sess) batch(c c08Case, rng *vRand, target string, pending []byte) {
 			if c.Item >= 0 {
 				return
 			}
+		case "forged":
+			// forged records of the CURRENT epoch with sequence numbers far ahead of the genuine sender: they must
+			// not move the anti-replay window (the genuine records that follow must still be accepted)
+			cur := dtlsstate.CommonState(tgt.state).RemoteEpoch()
+			seqs := []uint64{1 << 20, 1 << 32, recordlayer.MaxSequenceNumber, recordlayer.MaxSequenceNumber - 70, 4096, 100000}
+			var d []byte
+			if ctx.v13 {
+				d = append([]byte{0x2c | byte(cur&3), byte(seqs[i%len(seqs)] >> 8), byte(seqs[i%len(seqs)]), 0, 48}, rng.bytes(48)...)
+			} else {
+				d = make([]byte, 13, 13+48)
+				d[0], d[1], d[2] = 23, 0xfe, 0xfd
+				binary.BigEndian.PutUint16(d[3:], cur)
+				sq := seqs[i%len(seqs)]
+				d[5], d[6] = byte(sq>>40), byte(sq>>32)
+				binary.BigEndian.PutUint32(d[7:], uint32(sq)) //nolint:gosec
+				if ctx.cidLen > 0 {
+					d[0] = 25
+					d = append(d[:11], append(append([]byte(nil), dtlsstate.CommonState(tgt.state).LocalConnectionIDForInboundRecords()...), 0, 0)...)
+				}
+				binary.BigEndian.PutUint16(d[len(d)-2:], 48)
+				d = append(d, rng.bytes(48)...)
+			}
+			s.inject(target, d, c08Classify(d, ctx), "forged-seq")
 		case "flood-queue":
 			// forged records claiming the next epoch: each may take one of the 100 queue slots
 			var d []byte
@@ -1225,10 +1256,10 @@ func (s *c08Sess) batch(c c08Case, rng *vRand, target string, pending []byte) {
 
 				continue
 			}
-			if s.v.CBC > 0 && !peer.state.ShouldWrapConnectionID() && (i < 5 || rng.chance(30)) {
+			if s.v.CBC > 0 && !peer.state.ShouldWrapConnectionID() && ((c.Item < 0 && rng.chance(30)) || c.Item >= 100) {
 				mode := rng.intn(5)
-				if i < 5 {
-					mode = []int{4, 0, 2, 3, 1}[i]
+				if c.Item >= 100 {
+					mode = c.Item - 100
 				}
 				d, name, err := c08CBCRecord(rng, peer, s.v, mode)
 				if err != nil {
@@ -1244,8 +1275,11 @@ func (s *c08Sess) batch(c c08Case, rng *vRand, target string, pending []byte) {
 				continue
 			}
 			idx := -1
+			if c.Item >= 100 {
+				continue // a CBC item on a variant where it does not apply
+			}
 			if c.Item >= 0 {
-				idx = c.Item + i // the three prot cases of a variant walk through the whole list between them
+				idx = c.Item // one malformed content per session: an earlier one may end the session
 			}
 			pl := c08MalformedPlain(rng, dtlsstate.HandshakeRecvSequence(tgt.state), ctx.v13, idx)
 			if c08Avoided("prot:" + pl.name) {
@@ -1414,14 +1448,23 @@ func c08Cases(seed uint64, thorough bool) []c08Case {
 				add(v.Name, -1, "flood-cache", 1300)
 				add(v.Name, -1, "flood-cache", 1300)
 			}
+			if r == 0 {
+				add(v.Name, -1, "forged", 6)
+				add(v.Name, -1, "forged", 6)
+			}
 			add(v.Name, -1, "raw", 12)
 			add(v.Name, -1, "mut", 14)
 			add(v.Name, -1, "mut", 14)
 			for k := 0; k < 3; k++ {
 				add(v.Name, -1, "prot", 16)
-				if r == 0 {
-					cases[len(cases)-1].Item = 11 * k
-				}
+			}
+			for k := 0; k < c08NPlain && r == 0; k++ {
+				add(v.Name, -1, "prot", 1)
+				cases[len(cases)-1].Item = k
+			}
+			for k := 0; k < 5 && r == 0 && v.CBC > 0; k++ {
+				add(v.Name, -1, "prot", 1)
+				cases[len(cases)-1].Item = 100 + k
 			}
 		}
 	}
